@@ -555,7 +555,11 @@ func c39runSeq(r *vk.Run, id string, syms []*c39sym) {
 	}
 	var written []rec
 	partialType, partialAt := "", -1
-	refusedType, refusedAt := "", -1 // first refused write that left nothing on the wire
+	type refusal struct {
+		typ string
+		at  int
+	}
+	var refused []refusal // refused writes that left nothing on the wire
 	hdrFrames := 0
 	for _, s := range syms {
 		fr := s.mk()
@@ -569,8 +573,8 @@ func c39runSeq(r *vk.Run, id string, syms []*c39sym) {
 			r.Outcome("write-refused:" + c39errClass(werr))
 			if wire.Len() != before && partialAt < 0 {
 				partialType, partialAt = s.typ, len(written)
-			} else if wire.Len() == before && refusedAt < 0 {
-				refusedType, refusedAt = s.typ, len(written)
+			} else if wire.Len() == before {
+				refused = append(refused, refusal{s.typ, len(written)})
 			}
 			continue
 		}
@@ -599,9 +603,20 @@ func c39runSeq(r *vk.Run, id string, syms []*c39sym) {
 			if w.sym.hs != nil && w.sym.hs.lenChanging() {
 				return "roundtrip:name-length-changes-on-lowercase:" + kind
 			}
-			if refusedAt >= 0 && i >= refusedAt {
-				// "a refused frame leaves no trace": a frame accepted after a refused one differs
-				return "roundtrip:after-refused-write:" + refusedType + ":" + kind
+			// "a refused frame leaves no trace": a frame accepted after a refused one differs.
+			// Attributed to the latest refused write before it, preferring a header-carrying one
+			// (they share headerBuf and the compressor) when the victim carries headers.
+			culprit := ""
+			for _, rq := range refused {
+				if rq.at <= i {
+					hb := rq.typ == "syn_stream" || rq.typ == "syn_reply" || rq.typ == "headers"
+					if culprit == "" || hb || w.sym.hs == nil {
+						culprit = rq.typ
+					}
+				}
+			}
+			if culprit != "" {
+				return "roundtrip:after-refused-write:" + culprit + ":" + kind
 			}
 			cl := "-"
 			if w.sym.hs != nil {
